@@ -246,7 +246,12 @@ func (d *Decls) structSort(t types.Type, st *types.Struct) string {
 	var fs []string
 	for i := 0; i < st.NumFields(); i++ {
 		f := st.Field(i)
-		fs = append(fs, fmt.Sprintf("(%s_%s %s)", name, sanitize(f.Name()), d.sortOf(f.Type())))
+		fn := sanitize(f.Name())
+		if f.Name() == "_" {
+			// blank fields (padding, noCopy markers) cannot be selected: any unique accessor name will do
+			fn = fmt.Sprintf("blank%d", i)
+		}
+		fs = append(fs, fmt.Sprintf("(%s_%s %s)", name, fn, d.sortOf(f.Type())))
 	}
 	if len(fs) == 0 {
 		fs = append(fs, fmt.Sprintf("(%s__dummy Bool)", name))
